@@ -409,9 +409,6 @@ std::size_t CDNS::CollectionParameters::write(CdnsEncoder& enc)
     std::size_t fields = !!query_timeout + !!skew_timeout + !!snaplen + !!promisc + !!interfaces.size()
                          + !!server_address.size() + !!vlan_ids.size() + !!filter + !!generator_id + !!host_id;
 
-    if (fields == 0)
-        return 0;
-
     std::size_t written = 0;
 
     // Start Collection parameters map
